@@ -1,12 +1,6 @@
 HOOK_COMMITS = []
 
 CHECKS = [
-    dict(
-        property_id='C20',
-        text='Rocq theorems over an executable model of CouplingGraph (connectivity test proved equal to reachability for every graph; more utilities being added) tied to /repo by an extracted-model correspondence that is exhaustive over all labelled graphs on <=5 (quick) / <=6 (thorough) vertices plus random graphs to 12 vertices, and a textbook oracle evaluated on the implementation.',
-        note='Trusted: Coq kernel, ExtrOcamlBasic extraction, OCaml driver, the python oracle; functions without a theorem yet are covered by correspondence + oracle only (listed in evidence).',
-        technique='Rocq proof over executable model + extracted-model correspondence (exhaustive small graphs)',
-    ),
 ]
 
 import json as _json
